@@ -257,6 +257,31 @@ def build(desc):
     if desc.get("entry_point"):
         m.entry_point = blocks[desc["entry_point"]]
 
+    st = desc.get("symtabs") or {}
+    if st:
+        if fmt == gtirb.Module.FileFormat.ELF:
+            info = m.aux_data["elfSymbolInfo"].data
+            for name, s_ in syms.items():
+                if name not in {x.name for x in info}:
+                    if name in st.get("elf_info", []):
+                        info[s_] = (0, "OBJECT" if name.startswith("Dt") else "FUNC", "GLOBAL", "DEFAULT", 0)
+            idx = m.aux_data["elfSymbolTabIdxInfo"].data
+            for name, lst in st.get("tabidx", {}).items():
+                idx[syms[name]] = [tuple(x) for x in lst]
+            v = st.get("versions")
+            if v:
+                defs = {int(k): (list(vv[0]), vv[1]) for k, vv in v["defs"].items()}
+                reqs = {lib: {int(k): ver for k, ver in d.items()} for lib, d in v["reqs"].items()}
+                entries = {syms[n]: (vid, bool(hidden)) for n, (vid, hidden) in v["entries"].items()}
+                m.aux_data["elfSymbolVersions"] = gtirb.AuxData(
+                    (defs, reqs, entries),
+                    "tuple<mapping<uint16_t,tuple<sequence<string>,uint16_t>>,mapping<string,mapping<uint16_t,string>>,mapping<UUID,tuple<uint16_t,bool>>>",
+                )
+        else:
+            m.aux_data["peImportedSymbols"].data.extend(syms[n] for n in st.get("pe_imports", []))
+            m.aux_data["peImportEntries"].data.extend((0, -1, n, "lib.dll") for n in st.get("pe_imports", []))
+            m.aux_data["peExportedSymbols"].data.extend(syms[n] for n in st.get("pe_exports", []))
+            m.aux_data["peExportEntries"].data.extend((0, -1, n) for n in st.get("pe_exports", []))
     for a, b in desc.get("symbol_forwarding", []):
         m.aux_data["symbolForwarding"].data[syms[a]] = syms[b]
     _extra_aux(w, model, desc, blocks, syms)
